@@ -84,6 +84,10 @@ impl<M: MovingAverageConstructor> IndicatorConfig for ChaikinOscillator<M> {
 				Err(_) => return Err(Error::ParameterParse(name.to_string(), value.to_string())),
 				Ok(value) => self.ma2 = value,
 			},
+			"window" => match value.parse() {
+				Err(_) => return Err(Error::ParameterParse(name.to_string(), value.to_string())),
+				Ok(value) => self.window = value,
+			},
 
 			_ => {
 				return Err(Error::ParameterParse(name.to_string(), value));
